@@ -64,6 +64,21 @@ def t_local(s: float, k: float) -> float:
     return b / (1.0 + a)
 
 
+def t_cap(s: float, k: float) -> float:
+    v = k * s
+    if s > 1.5:
+        v = 1.5 * k
+    return v
+
+
+def t_net(s: float, p: float) -> float:
+    return 2.0 * s - p
+
+
+def t_un(a: float, b: float) -> float:
+    return a * 2.0 + 0.0 * b
+
+
 def t_time(k: float, t: float) -> float:
     return k * (1.0 + 0.1 * t)
 
@@ -122,5 +137,5 @@ def u_exp(s: float, k: float) -> float:
     return k * math.exp(-s)
 
 
-RATES = {1: [t_const], 2: [t_ma1, t_cond, t_chain, t_elif, t_nested, t_local, t_time], 3: [t_ma2, t_mm, t_inh, t_hill], 4: [t_rev]}
+RATES = {1: [t_const], 2: [t_ma1, t_cond, t_chain, t_elif, t_nested, t_local, t_time, t_cap], 3: [t_ma2, t_mm, t_inh, t_hill], 4: [t_rev]}
 UNTRANSLATABLE = [u_loop, u_andor, u_aug, u_exp]
